@@ -22,12 +22,13 @@
 (***************************************************************************)
 EXTENDS Integers, Sequences, FiniteSets, SequencesExt, TLC
 
-Names == <<".lp", "B.lp", "a-b.lp", "a.lp", "a.spec", "c.lp.bak", "d.LP", "dir", "e.spec.lp", "m.ug", "n.po", "o.spec", "sub",
-           "y.ug", "z.lp", "zz">>
+Names == <<".h.lp", ".hid", ".lp", "B.lp", "a-b.lp", "a.lp", "a.spec", "c.lp.bak", "d.LP", "dir", "e.spec.lp", "m.ug", "n.po", "o.spec",
+           "sub", "y.ug", "z.lp", "zz">>
 \* the extension as Path::extension() sees it: text after the last dot of a name that does not start with its only dot
-Ext == <<"", "lp", "lp", "lp", "spec", "bak", "LP", "", "lp", "ug", "po", "spec", "", "ug", "lp", "">>
-FileNames == {i \in DOMAIN Names : i \notin {8, 13}}
-DirNames == {8, 13}
+Ext == <<"lp", "", "", "lp", "lp", "lp", "spec", "bak", "LP", "", "lp", "ug", "po", "spec", "", "ug", "lp", "">>
+Idx(name) == CHOOSE i \in DOMAIN Names : Names[i] = name
+DirNames == {Idx(".hid"), Idx("dir"), Idx("sub")}
+FileNames == DOMAIN Names \ DirNames
 
 \* ---------------------------------------------------------------- declarative: the files in the order anthem sees them
 \* paths are sequences of name indices
